@@ -12,7 +12,9 @@
     taken and the (request, outcome) pairs in release order. *)
 From LOV Require Export Db.Txn.
 
-Inductive act := ALock | AExec | ANotify | ACommit | AUnlock.
+(* [AWeakLock]: any other use of the transaction lock in the handler - a shared (read) acquisition, a
+   conditional or try acquisition, or the matching releases: it excludes nobody *)
+Inductive act := ALock | AExec | ANotify | ACommit | AUnlock | AWeakLock.
 Global Instance act_eq_dec : EqDecision act.
 Proof. solve_decision. Defined.
 
@@ -64,6 +66,8 @@ Definition wstep (w : world) (t : nat) : world :=
       | AUnlock =>
           mkWorld (w_db w) (if bool_decide (w_lock w = Some t) then None else w_lock w) next (w_res w) (w_notified w) (w_acq w)
                   (match w_res w t with Some o => w_done w ++ [(t, o)] | None => w_done w end)
+      | AWeakLock =>
+          mkWorld (w_db w) (w_lock w) next (w_res w) (w_notified w) (w_acq w) (w_done w)
       end
   end.
 
